@@ -54,7 +54,10 @@ func digestMessageType(mt protoreflect.MessageType) string {
 	j, err := protojson.MarshalOptions{AllowPartial: true}.Marshal(m.Interface())
 	fmt.Fprint(h, len(j) > 0, err != nil)
 	fmt.Fprint(h, prototext.MarshalOptions{AllowPartial: true}.Format(m.Interface()))
-	m.Range(func(fd protoreflect.FieldDescriptor, v protoreflect.Value) bool { fmt.Fprint(h, "POPULATED"); return true })
+	m.Range(func(fd protoreflect.FieldDescriptor, v protoreflect.Value) bool {
+		fmt.Fprint(h, "POPULATED")
+		return true
+	})
 	// set and read back the first scalar field
 	for i := 0; i < md.Fields().Len(); i++ {
 		fd := md.Fields().Get(i)
